@@ -5,7 +5,7 @@
 #![allow(dead_code)]
 
 use crate::c07::canon_gimli;
-use gimli::{EndianSlice, Operation, RunTimeEndian};
+use gimli::{EndianSlice, Operation, Reader, RunTimeEndian, Section};
 
 pub type Rdr<'a> = EndianSlice<'a, RunTimeEndian>;
 
@@ -210,4 +210,388 @@ where
         });
     }
     Ok(out)
+}
+
+// ---------------------------------------------------------------------------
+// units: forest, attribute meanings, line programs, lists
+// ---------------------------------------------------------------------------
+
+pub const AT_MARKER: u16 = 0x3fff;
+
+#[derive(Clone, Debug, PartialEq)]
+pub struct LineDump {
+    /// resolved file table entries, sorted and de-duplicated
+    pub files: Vec<String>,
+    pub rows: Vec<String>,
+    pub end: Result<(), String>,
+}
+
+#[derive(Clone, Debug, PartialEq)]
+pub struct EntryDump {
+    pub depth: isize,
+    pub tag: u16,
+    pub marker: Option<u64>,
+    pub attrs: Vec<(u16, String)>,
+}
+
+#[derive(Clone, Debug, PartialEq)]
+pub struct UnitDump {
+    pub version: u16,
+    pub format64: bool,
+    pub address_size: u8,
+    pub entries: Vec<EntryDump>,
+    pub line: Option<LineDump>,
+}
+
+#[derive(Clone, Debug, PartialEq)]
+pub struct DwarfDump {
+    pub units: Vec<UnitDump>,
+}
+
+/// Attributes the converter documents as not carried over (layout metadata).
+pub fn is_metadata_attr(name: u16) -> bool {
+    matches!(name, 0x01 | 0x72 | 0x73 | 0x74 | 0x8c | 0x76 | 0x2130 | 0x2131 | 0x2132 | 0x2133 | 0x2137)
+}
+
+fn bytes_str(b: &[u8]) -> String {
+    if b.iter().all(|c| (0x20..0x7f).contains(c)) {
+        format!("\"{}\"", String::from_utf8_lossy(b))
+    } else {
+        format!("{:02x?}", b)
+    }
+}
+
+fn file_name<'a>(dwarf: &gimli::Dwarf<Rdr<'a>>, unit: &gimli::Unit<Rdr<'a>>, header: &gimli::LineProgramHeader<Rdr<'a>>, index: u64) -> String {
+    let Some(f) = header.file(index) else { return format!("file#{}(no such entry)", index) };
+    let name = match dwarf.attr_string(unit, f.path_name()) {
+        Ok(s) => bytes_str(s.slice()),
+        Err(e) => format!("unresolvable({})", errname(&e)),
+    };
+    let dir = match f.directory(header) {
+        Some(d) => match dwarf.attr_string(unit, d) {
+            Ok(s) => bytes_str(s.slice()),
+            Err(e) => format!("unresolvable({})", errname(&e)),
+        },
+        None => format!("dir#{}(no such entry)", f.directory_index()),
+    };
+    let mut s = format!("{}|{}", dir, name);
+    if header.file_has_timestamp() {
+        s += &format!(" t={}", f.timestamp());
+    }
+    if header.file_has_size() {
+        s += &format!(" size={}", f.size());
+    }
+    if header.file_has_md5() {
+        s += &format!(" md5={:02x?}", f.md5());
+    }
+    if header.file_has_source() {
+        if let Some(src) = f.source() {
+            s += &match dwarf.attr_string(unit, src) {
+                Ok(x) => format!(" source={}", bytes_str(x.slice())),
+                Err(e) => format!(" source=unresolvable({})", errname(&e)),
+            };
+        }
+    }
+    s
+}
+
+pub fn line_dump<'a>(dwarf: &gimli::Dwarf<Rdr<'a>>, unit: &gimli::Unit<Rdr<'a>>) -> Option<LineDump> {
+    let program = unit.line_program.clone()?;
+    let header = program.header().clone();
+    let mut rows = Vec::new();
+    let mut it = program.rows();
+    let end;
+    loop {
+        match it.next_row() {
+            Ok(Some((h, r))) => {
+                let file = if r.end_sequence() { String::new() } else { file_name(dwarf, unit, h, r.file_index()) };
+                rows.push(if r.end_sequence() {
+                    format!("{:#x}.{} end_sequence", r.address(), r.op_index())
+                } else {
+                    format!(
+                        "{:#x}.{} {} line {:?} col {:?} stmt {} bb {} pe {} eb {} isa {} disc {}",
+                        r.address(),
+                        r.op_index(),
+                        file,
+                        r.line().map(|l| l.get()),
+                        match r.column() {
+                            gimli::ColumnType::LeftEdge => 0,
+                            gimli::ColumnType::Column(c) => c.get(),
+                        },
+                        r.is_stmt(),
+                        r.basic_block(),
+                        r.prologue_end(),
+                        r.epilogue_begin(),
+                        r.isa(),
+                        r.discriminator()
+                    )
+                });
+                if rows.len() > 20000 {
+                    end = Err("too-many-rows".to_string());
+                    break;
+                }
+            }
+            Ok(None) => {
+                end = Ok(());
+                break;
+            }
+            Err(e) => {
+                end = Err(errname(&e));
+                break;
+            }
+        }
+    }
+    // the file table after the program has run (DW_LNE_define_file adds entries)
+    let header = it.header().clone();
+    let mut files: Vec<String> = Vec::new();
+    let first = if header.version() >= 5 { 0 } else { 1 };
+    for i in 0..header.file_names().len() as u64 {
+        files.push(file_name(dwarf, unit, &header, i + first));
+    }
+    files.sort();
+    files.dedup();
+    Some(LineDump { files, rows, end })
+}
+
+/// Dump the whole .debug_info forest with attribute meanings.
+pub fn dwarf_dump<'a>(dwarf: &gimli::Dwarf<Rdr<'a>>) -> Result<DwarfDump, String> {
+    // pass 1: identity of every entry by section offset
+    let mut by_sec: std::collections::BTreeMap<usize, String> = std::collections::BTreeMap::new();
+    let mut units = Vec::new();
+    let mut it = dwarf.units();
+    loop {
+        match it.next() {
+            Ok(Some(h)) => {
+                let unit = dwarf.unit(h).map_err(|e| format!("unit:{}", errname(&e)))?;
+                units.push(unit);
+            }
+            Ok(None) => break,
+            Err(e) => return Err(format!("units:{}", errname(&e))),
+        }
+    }
+    for (ui, unit) in units.iter().enumerate() {
+        let base = unit.header.offset().to_debug_info_offset(&unit.header).map(|o| o.0).unwrap_or(0);
+        let mut cur = unit.entries();
+        let mut k = 0;
+        loop {
+            match cur.next_dfs() {
+                Ok(Some(e)) => {
+                    let name = match e.attr_value(gimli::DwAt(AT_MARKER)).and_then(|v| v.udata_value()) {
+                        Some(m) => format!("M{}", m),
+                        None => format!("unit{}#{}", ui, k),
+                    };
+                    by_sec.insert(base + e.offset().0, name);
+                    k += 1;
+                }
+                Ok(None) => break,
+                Err(e) => return Err(format!("entries:{}", errname(&e))),
+            }
+        }
+    }
+    let endian = dwarf.debug_info.reader().endian();
+    let mut out = Vec::new();
+    for unit in units.iter() {
+        let base = unit.header.offset().to_debug_info_offset(&unit.header).map(|o| o.0).unwrap_or(0);
+        let uref = |o: usize| by_sec.get(&(base + o)).cloned().unwrap_or_else(|| format!("dangling(unit+{:#x})", o));
+        let iref = |o: usize| by_sec.get(&o).cloned().unwrap_or_else(|| format!("dangling(info+{:#x})", o));
+        let aidx = |i: u64| match dwarf.address(unit, gimli::DebugAddrIndex(i as usize)) {
+            Ok(a) => format!("{}", a),
+            Err(e) => format!("unresolvable({})", errname(&e)),
+        };
+        let names = Names { unit_ref: &uref, info_ref: &iref, addr_index: &aidx };
+        let encoding = unit.encoding();
+        // a line program without rows and files says nothing: treated like an absent one
+        let mut line = line_dump(dwarf, unit);
+        let mut entries = Vec::new();
+        let mut file_used = false;
+        let mut cur = unit.entries();
+        while let Some(e) = cur.next_dfs().map_err(|e| format!("entries:{}", errname(&e)))? {
+            let mut attrs = Vec::new();
+            let mut marker = None;
+            for a in e.attrs() {
+                let name = a.name().0;
+                if name == AT_MARKER {
+                    marker = a.value().udata_value();
+                    continue;
+                }
+                if is_metadata_attr(name) {
+                    continue;
+                }
+                let m = attr_meaning(dwarf, unit, a, &names, encoding, endian);
+                if m.starts_with("file:") && m != "file:none" {
+                    file_used = true;
+                }
+                attrs.push((name, m));
+            }
+            entries.push(EntryDump { depth: e.depth(), tag: e.tag().0, marker, attrs });
+        }
+        // a line program without rows whose file table no entry refers to says nothing: treated like an absent one
+        if matches!(&line, Some(l) if l.rows.is_empty() && l.end.is_ok()) && !file_used {
+            line = None;
+            if let Some(root) = entries.first_mut() {
+                root.attrs.retain(|a| a.0 != 0x10);
+            }
+        }
+        out.push(UnitDump { version: encoding.version, format64: encoding.format == gimli::Format::Dwarf64, address_size: encoding.address_size, entries, line });
+    }
+    Ok(DwarfDump { units: out })
+}
+
+fn attr_meaning<'a>(dwarf: &gimli::Dwarf<Rdr<'a>>, unit: &gimli::Unit<Rdr<'a>>, attr: &gimli::Attribute<Rdr<'a>>, names: &Names, encoding: gimli::Encoding, endian: RunTimeEndian) -> String {
+    use gimli::AttributeValue as A;
+    let name = attr.name().0;
+    let num = |v: u64| format!("u:{}", v);
+    let v = attr.value();
+    match v {
+        A::Addr(a) => format!("addr:{}", a),
+        A::DebugAddrIndex(i) => match dwarf.address(unit, i) {
+            Ok(a) => format!("addr:{}", a),
+            Err(e) => format!("addr:unresolvable({})", errname(&e)),
+        },
+        A::Block(b) => format!("block:{:02x?}", b.slice()),
+        A::Data1(x) => num(x as u64),
+        A::Data2(x) => num(x as u64),
+        A::Data4(x) => num(x as u64),
+        A::Data8(x) => num(x),
+        A::Data16(x) => format!("u128:{}", x),
+        A::Udata(x) => num(x),
+        A::Sdata(x) => {
+            if x >= 0 {
+                num(x as u64)
+            } else {
+                format!("s:{}", x)
+            }
+        }
+        A::Exprloc(e) => format!("expr[{}]", expr_meaning(e.0.slice(), encoding, endian, names).join("; ")),
+        A::Flag(b) => format!("flag:{}", b),
+        A::UnitRef(o) => format!("ref->{}", (names.unit_ref)(o.0)),
+        A::DebugInfoRef(o) => format!("ref->{}", (names.info_ref)(o.0)),
+        A::DebugInfoRefSup(o) => format!("refsup:{}", o.0),
+        A::DebugLineRef(_) => "lineptr".to_string(),
+        A::LocationListsRef(_) | A::DebugLocListsIndex(_) => match dwarf.attr_locations(unit, v) {
+            Ok(Some(mut it)) => {
+                let mut parts = Vec::new();
+                loop {
+                    match it.next() {
+                        Ok(Some(l)) => parts.push(format!("[{:#x},{:#x}) {}", l.range.begin, l.range.end, expr_meaning(l.data.0.slice(), encoding, endian, names).join("; "))),
+                        Ok(None) => break,
+                        Err(e) => {
+                            parts.push(format!("error({})", errname(&e)));
+                            break;
+                        }
+                    }
+                    if parts.len() > 2000 {
+                        break;
+                    }
+                }
+                format!("loclist{{{}}}", parts.join(" | "))
+            }
+            Ok(None) => "loclist:none".to_string(),
+            Err(e) => format!("loclist:unresolvable({})", errname(&e)),
+        },
+        A::RangeListsRef(_) | A::DebugRngListsIndex(_) => match dwarf.attr_ranges(unit, v) {
+            Ok(Some(mut it)) => {
+                let mut parts = Vec::new();
+                loop {
+                    match it.next() {
+                        Ok(Some(r)) => parts.push(format!("[{:#x},{:#x})", r.begin, r.end)),
+                        Ok(None) => break,
+                        Err(e) => {
+                            parts.push(format!("error({})", errname(&e)));
+                            break;
+                        }
+                    }
+                    if parts.len() > 2000 {
+                        break;
+                    }
+                }
+                format!("rnglist{{{}}}", parts.join(" "))
+            }
+            Ok(None) => "rnglist:none".to_string(),
+            Err(e) => format!("rnglist:unresolvable({})", errname(&e)),
+        },
+        A::DebugTypesRef(s) => format!("sig:{}", s.0),
+        A::String(_) | A::DebugStrRef(_) | A::DebugLineStrRef(_) | A::DebugStrOffsetsIndex(_) => match dwarf.attr_string(unit, v) {
+            Ok(s) => format!("str:{}", bytes_str(s.slice())),
+            Err(e) => format!("str:unresolvable({})", errname(&e)),
+        },
+        A::DebugStrRefSup(o) => format!("strsup:{}", o.0),
+        A::Encoding(x) => num(x.0 as u64),
+        A::DecimalSign(x) => num(x.0 as u64),
+        A::Endianity(x) => num(x.0 as u64),
+        A::Accessibility(x) => num(x.0 as u64),
+        A::Visibility(x) => num(x.0 as u64),
+        A::Virtuality(x) => num(x.0 as u64),
+        A::Language(x) => num(x.0 as u64),
+        A::AddressClass(x) => num(x.0),
+        A::IdentifierCase(x) => num(x.0 as u64),
+        A::CallingConvention(x) => num(x.0 as u64),
+        A::Inline(x) => num(x.0 as u64),
+        A::Ordering(x) => num(x.0 as u64),
+        A::FileIndex(i) => {
+            if name == 0x3a || name == 0x58 {
+                match unit.line_program.as_ref() {
+                    Some(lp) if !(i == 0 && encoding.version <= 4) => format!("file:{}", file_name(dwarf, unit, lp.header(), i)),
+                    _ if i == 0 => "file:none".to_string(),
+                    _ => format!("file:#{}(no line program)", i),
+                }
+            } else {
+                num(i)
+            }
+        }
+        A::SecOffset(o) => format!("secoff:{}", o),
+        A::DebugMacinfoRef(o) => format!("secoff:{}", o.0),
+        A::DebugMacroRef(o) => format!("secoff:{}", o.0),
+        A::DwoId(x) => num(x.0),
+        other => format!("other:{:?}", crate::dieasm::canon_av(&other)),
+    }
+}
+
+/// First difference between two dumps: (signature suffix, detail).
+pub fn diff_dumps(a: &DwarfDump, b: &DwarfDump) -> Option<(String, String)> {
+    if a.units.len() != b.units.len() {
+        return Some(("unit-count".into(), format!("{} units before, {} after", a.units.len(), b.units.len())));
+    }
+    for (ui, (x, y)) in a.units.iter().zip(b.units.iter()).enumerate() {
+        if (x.version, x.format64, x.address_size) != (y.version, y.format64, y.address_size) {
+            return Some(("unit-encoding".into(), format!("unit {}: {:?} vs {:?}", ui, (x.version, x.format64, x.address_size), (y.version, y.format64, y.address_size))));
+        }
+        if x.entries.len() != y.entries.len() {
+            return Some(("entry-count".into(), format!("unit {}: {} entries before, {} after", ui, x.entries.len(), y.entries.len())));
+        }
+        for (k, (p, q)) in x.entries.iter().zip(y.entries.iter()).enumerate() {
+            if (p.depth, p.tag, p.marker) != (q.depth, q.tag, q.marker) {
+                return Some(("forest".into(), format!("unit {} entry #{}: depth/tag/identity {:?} before, {:?} after", ui, k, (p.depth, p.tag, p.marker), (q.depth, q.tag, q.marker))));
+            }
+            if p.attrs != q.attrs {
+                for (s, t) in p.attrs.iter().zip(q.attrs.iter()) {
+                    if s != t {
+                        return Some(("attribute".into(), format!("unit {} entry #{} (tag {:#x}): attribute {:#x} = {} before, {:#x} = {} after", ui, k, p.tag, s.0, s.1, t.0, t.1)));
+                    }
+                }
+                return Some(("attribute-count".into(), format!("unit {} entry #{}: attributes {:x?} before, {:x?} after", ui, k, p.attrs.iter().map(|a| a.0).collect::<Vec<_>>(), q.attrs.iter().map(|a| a.0).collect::<Vec<_>>())));
+            }
+        }
+        match (&x.line, &y.line) {
+            (None, None) => {}
+            (Some(l), Some(m)) => {
+                if l.end != m.end {
+                    return Some(("line-end".into(), format!("unit {}: rows end with {:?} before, {:?} after", ui, l.end, m.end)));
+                }
+                for (k, (r, s)) in l.rows.iter().zip(m.rows.iter()).enumerate() {
+                    if r != s {
+                        return Some(("line-row".into(), format!("unit {} row #{}: before `{}` after `{}`", ui, k, r, s)));
+                    }
+                }
+                if l.rows.len() != m.rows.len() {
+                    return Some(("line-row-count".into(), format!("unit {}: {} rows before, {} after; first unmatched `{}`", ui, l.rows.len(), m.rows.len(), l.rows.get(m.rows.len()).or(m.rows.get(l.rows.len())).cloned().unwrap_or_default())));
+                }
+                if l.files != m.files {
+                    return Some(("line-files".into(), format!("unit {}: file table {:?} before, {:?} after", ui, l.files, m.files)));
+                }
+            }
+            (l, m) => return Some(("line-presence".into(), format!("unit {}: line program {} before, {} after", ui, l.is_some(), m.is_some()))),
+        }
+    }
+    None
 }
